@@ -199,9 +199,40 @@ def gen_c10(seed, size="quick"):
     dom = r.choice([8, 15, 30])
     edb(t, r, r.choice([20, 60, 150]) if size == "quick" else r.choice([60, 150, 300]), dom)
     t.meta["choice"] = []
-    kinds = r.sample(["single", "two", "composite", "tree", "recursive_pick", "agg", "agg2", "idx", "idx2", "exists"], r.randrange(1, 4))
+    kinds = r.sample(["single", "two", "composite", "tree", "recursive_pick", "agg", "agg2", "idx", "idx2", "exists", "nonprefix", "arith", "withfacts", "rec3"],
+                     r.randrange(1, 4))
     for kind in kinds:
-        if kind == "idx":
+        if kind == "nonprefix":
+            # key columns that are not a prefix of the relation; one single-column key and one composite key
+            t.decls.append(".decl pickn(a:number,b:number,c:number) choice-domain c, (a,b)")
+            t.rules.append({"head": ("pickn", [V("k"), V("a"), V("b")]), "body": [("atom", "e2", [V("k"), V("a"), V("b")])]})
+            t.rules.append({"head": ("pickn", [V("x"), V("y"), V("w")]), "body": [("atom", "ew", [V("x"), V("y"), V("w")])]})
+            t.meta["choice"].append({"rel": "pickn", "keys": [[2], [0, 1]]})
+            t.outputs.append("pickn")
+        elif kind == "arith":
+            # computed values and constants in key columns of the head
+            t.decls.append(".decl picka(x:number,y:number) choice-domain x")
+            t.rules.append({"head": ("picka", [ADD(V("x"), C(1)), V("y")]), "body": [("atom", "e1", [V("x"), V("y")])]})
+            t.rules.append({"head": ("picka", [C(1), V("y")]), "body": [("atom", "n1", [V("y")])]})
+            t.meta["choice"].append({"rel": "picka", "keys": [[0]]})
+            t.outputs.append("picka")
+        elif kind == "withfacts":
+            # facts and rules for the same choice relation (the facts take the keys first)
+            t.decls.append(".decl pickf(x:number,y:number) choice-domain x, y")
+            t.rules.append({"head": ("pickf", [C(0), C(100)]), "body": []})
+            t.rules.append({"head": ("pickf", [C(1), C(101)]), "body": []})
+            t.rules.append({"head": ("pickf", [V("x"), V("y")]), "body": [("atom", "e1", [V("x"), V("y")])]})
+            t.meta["choice"].append({"rel": "pickf", "keys": [[0], [1]]})
+            t.outputs.append("pickf")
+        elif kind == "rec3":
+            # recursive choice rule with a composite key and a second key, key columns not first
+            t.decls.append(".decl hop(d:number,x:number,y:number) choice-domain (d,x), y")
+            t.rules.append({"head": ("hop", [C(0), V("x"), V("y")]), "body": [("atom", "e1", [V("x"), V("y")]), ("cmp", "<", V("x"), C(3))]})
+            t.rules.append({"head": ("hop", [ADD(V("d"), C(1)), V("y"), V("z")]),
+                            "body": [("atom", "hop", [V("d"), U, V("y")]), ("atom", "e1", [V("y"), V("z")]), ("cmp", "<", V("d"), C(4))]})
+            t.meta["choice"].append({"rel": "hop", "keys": [[0, 1], [2]]})
+            t.outputs.append("hop")
+        elif kind == "idx":
             # outermost operation is an index scan (constant in the first atom)
             k = r.randrange(0, 4)
             t.decls.append(".decl picki(y:number,z:number) choice-domain y")
